@@ -721,7 +721,7 @@ PROPS = {
         "module": "DnsModel.Theorems.C11", "theorems": ["Dns.C11.walk_delete", "Dns.C11.second_delete", "Dns.C11.delete_void_untouched", "Dns.C11.emptied_absent", "Dns.C11.still_accepted", "Dns.C11.plain_of_accepted", "Dns.C11.first_delete", "Dns.C11.walk_delete_parsed", "Dns.C11.walk_delete_skipping_opt", "Dns.C11.walk_delete_parsed_skipping_opt", "Dns.C11.opt_once", "Dns.delWalkSkip_fresh_refines", "Dns.delWalkSkip_refines", "Dns.delWalk_refines", "Dns.delWalk_fresh_refines", "Dns.PlainObj.delete_at", "Dns.absWalk_terminates", "Dns.absWalk_sublist", "Dns.absWalk_deleted_gone", "Dns.absWalk_yields_survivors", "Dns.absWalk_perm"],
         "families": [{"name": "delete-walks", "quick": 0, "thorough": 0, "fixed": True}, {"name": "walk-huge-quick", "quick": 0, "thorough": 0, "fixed": True, "only": "quick"}, {"name": "walk-huge-full", "quick": 0, "thorough": 0, "fixed": True, "only": "thorough"}],
         "oracle": oracle_c11, "nontrivial": lambda c, a: "delete" in c, "shrink": False,
-        "rule": "every subset of the records of a section of size 0..5 deleted from within one walk, for the three record sections and the question, pointer-free and compressed, OPT absent/first/last; walks over all four sections in one script in all 24 orders (question deleted first / last / in between), a question-less packet built from empty(); exhaustive in both tiers",
+        "rule": "every subset of the records of a section of size 0..5 deleted from within one walk, for the three record sections and the question, pointer-free and compressed, OPT absent/first/last; walks over all four sections in one script in all 24 orders (question deleted first / last / in between), a question-less packet built from empty(); exhaustive in both tiers; plus sections of 32767..65535 records (run on the real code, judged by the oracle alone: too large for the list-based model)",
         "level": "proof",
         "explanation": "theorems: on every pointer-free packet object (what decompression, recompute or insertion leave for any accepted packet: plain_of_accepted), for each of the three record sections, for the public walk (OPT-skipping next() in answer/authority, OPT-including in all three) and every stream of delete/keep choices, the walk-and-delete run of the model terminates within (n+1)^2+n+1 steps without error or panic and refines an abstract list machine (delWalk_refines): each deletion removes exactly the record under the cursor and lowers exactly that section's count (PlainObj.delete_at), a second deletion through the same cursor reports VoidRecord and changes nothing, a deleted record is never yielded again, every survivor is yielded at least once, afterwards the section holds exactly the survivors in original order with matching count and an emptied section reads as absent, other sections / question / other header fields untouched, and the bytes are accepted by the parser with the section starts the object holds. The first deletion on a still-flagged (possibly compressed) object is first_delete: decompress, carry the cursor, delete exactly that record. "
                        "correspondence: exhaustive deletion walks (all subsets, sizes 0..5, four sections, two layouts, OPT absent/first/last) on the real iterators vs the model vs the walk oracle",
